@@ -526,6 +526,7 @@ MODULES['C13'] += ['C13GenWalk']; AUDITS['C13'] += ['C13GenWalk']   # match_lang
 MODULES['C02'] += ['C02GenNth', 'C02GenNthTerm']; AUDITS['C02'] += ['C02GenNth']   # the integer bookkeeping of match_nth (init, adjustment loops, main test, advance) translated from the source (gen/gen_py_nth.py)
 MODULES['C06'] += ['C06GenComb']; AUDITS['C06'] += ['C06GenComb']; MODULES['C05'] += ['C06GenComb']; AUDITS['C05'] += ['C06GenComb']   # parse_combinator / parse_has_combinator translated from the source (gen/gen_py_combinators.py)
 MODULES['C09'] += ['C09GenHandlers']; AUDITS['C09'] += ['C09GenHandlers']   # the token handlers parse_tag_pattern / parse_class_id / parse_pseudo_dir / parse_pseudo_lang / parse_pseudo_contains translated from the source (gen/gen_py_handlers.py)
+MODULES['C06'] += ['C06GenPseudoOpen']; AUDITS['C06'] += ['C06GenPseudoOpen']   # the flag computation and frame of parse_pseudo_open translated from the source (gen/gen_py_popen.py)
 # `CxxRx` modules restate the property theorems about the regular expressions REGENERATED from the source
 # (the hand-written scanners are proved equal to the regex-engine model on them in lean/SoupVerif/Refine/).
 
